@@ -5,4 +5,9 @@ sch = json.load(open('/root/.vp/EVIDENCE.schema.json')); bad = 0
 for f in sorted(glob.glob('/verif/evidence/*.json')):
     try: jsonschema.validate(json.load(open(f)), sch)
     except Exception as e: print('INVALID', f, str(e)[:300]); bad += 1
+m = json.load(open('/verif/MANIFEST.json'))
+for c in m['checks']:
+    try: e = json.load(open('/verif/evidence/%s.json' % c['property_id']))
+    except Exception: print('NO EVIDENCE', c['property_id']); bad += 1; continue
+    if e['level'] != c['level_claimed']['category']: print('LEVEL MISMATCH', c['property_id'], e['level'], c['level_claimed']['category']); bad += 1
 print('manifest valid; evidence files checked:', len(glob.glob('/verif/evidence/*.json')), 'invalid:', bad); sys.exit(1 if bad else 0)
